@@ -11,7 +11,7 @@ from .execu import Obligation
 from . import replay as RP
 from . import source
 
-CONTRACT_MODULES = ['contracts.game_game']
+CONTRACT_MODULES = ['contracts.game_game', 'contracts.sections']
 
 
 def registry(mods=None):
@@ -30,6 +30,15 @@ def formula_size(ob):
         if n > 200000:
             break
     return n
+
+
+def sample_idx(n, seed=0, k=160):
+    if n <= 2 * k:
+        return range(n)
+    import random
+    r = random.Random(seed)
+    s = set(range(8)) | set(range(n - 8, n)) | {r.randrange(n) for _ in range(k)}
+    return sorted(s)
 
 
 def same_value(a, b):
@@ -52,15 +61,11 @@ def conformance(contract, rep, outcome):
     """Engine-vs-CPython cross-check on one symbolic path: a model of the path condition is run through
     the real function; the real result and heap must equal the symbolic ones under that model.
     Returns None (ok), or a description of the mismatch."""
-    s = z3.Solver()
-    s.set('timeout', 10000)
-    for ax in rep.axioms:
-        s.add(ax)
-    for c in outcome.st.pc:
-        s.add(c)
-    if s.check() != z3.sat:
+    from .solve import small_model
+    model = small_model(list(outcome.st.pc), rep.axioms, getattr(rep, 'size_hints', ()))
+    if model is None:
         return 'skip'
-    mv = RP.ModelView(s.model())
+    mv = RP.ModelView(model)
     K, a = rep.setup
     try:
         pre = RP.concrete_state(K.st, mv)
@@ -87,8 +92,13 @@ def conformance(contract, rep, outcome):
         h = outcome.st.heap.get(cid)
         if h is None or isinstance(h, dict):
             continue
-        if not same_value(mv.value(h), RP.untree(t, post)):
-            return 'heap cell %d differs after the call (inputs %s)' % (cid, RP._short(args_tree))
+        real = RP.untree(t, post)
+        n = mv.int(h.n)
+        if n != real.n:
+            return 'heap cell %d: symbolic length %d, real length %d (inputs %s)' % (cid, n, real.n, RP._short(args_tree))
+        for i in sample_idx(n, cid):
+            if not same_value(_deep(mv.value(h.get(i)), outcome.st, mv), real.get(i)):
+                return 'heap cell %d differs at index %d after the call (inputs %s)' % (cid, i, RP._short(args_tree))
     return None
 
 
@@ -115,10 +125,10 @@ def _show(v):
 def run_contracts(check, contracts, reg, tier, seed=0, conformance_paths=None):
     """Verify each contract, discharge, replay failures, account in `check`."""
     reports = []
-    for c in contracts:
-        rep = verify(c, reg)
+    for c, variant in [(c, v) for c in contracts for v in c.variants]:
+        rep = verify(c, reg, variant)
         reports.append(rep)
-        if rep.fn is not None:
+        if rep.fn is not None and variant in (None, c.variants[0]):
             check.functions.append({'function': c.target, 'file': os.path.relpath(rep.fn.path, source.REPO),
                                     'line': rep.fn.line, 'sha256': rep.fn.sha, 'paths': rep.paths,
                                     'ints': c.mode})
@@ -135,9 +145,9 @@ def run_contracts(check, contracts, reg, tier, seed=0, conformance_paths=None):
                 excl.append(tobool(NOT(c.known_classes[kf['class']](K, a))))
         axioms = list(rep.axioms) + excl
         # vacuity guard 2: a deliberately false assertion must be refuted on some path
-        rep.obligations.append(Obligation(c.target + '/guard.false-is-refuted', list(K.st.pc),
+        rep.obligations.append(Obligation(c.target + ('' if variant is None else '[%s]' % variant) + '/guard.false-is-refuted', list(K.st.pc),
                                           z3.BoolVal(False), 'guard'))
-        solve_all(rep.obligations, axioms)
+        solve_all(rep.obligations, axioms, hints=getattr(rep, 'size_hints', ()))
         for ob in rep.obligations:
             if ob.kind == 'guard':
                 if ob.status != 'failed':
@@ -148,6 +158,7 @@ def run_contracts(check, contracts, reg, tier, seed=0, conformance_paths=None):
                 check.undecide(ob.name)
         fails = [ob for ob in rep.obligations if ob.status == 'failed' and ob.kind != 'guard']
         seen = set()
+        nreplayed = 0
         for ob in fails:
             if ob.kind == 'cover':
                 check.error('%s: precondition of the contract is unsatisfiable (vacuous)' % c.target)
@@ -159,6 +170,12 @@ def run_contracts(check, contracts, reg, tier, seed=0, conformance_paths=None):
             seen.add(key)
             payload = {'function': c.target, 'source_sha256': rep.fn.sha, 'kind': ob.kind, 'line': ob.line}
             confirmed = False
+            nreplayed += 1
+            if nreplayed > 4:
+                payload['note'] = 'further failed obligation of the same function; see the first replays'
+                payload['solver_model'] = str(ob.model)[:2000] if ob.model is not None else None
+                check.violation(ob.name, payload, False)
+                continue
             if ob.model is not None:
                 try:
                     r = RP.replay_model(c, rep, ob.model)
@@ -185,6 +202,8 @@ def run_contracts(check, contracts, reg, tier, seed=0, conformance_paths=None):
             for i in idxs:
                 try:
                     bad = conformance(c, rep, outs[i])
+                except SymErr:
+                    bad = 'skip'
                 except Exception as e:
                     bad = 'conformance crashed: %r' % (e,)
                 if bad == 'skip':
